@@ -78,7 +78,7 @@ def setup():
     t0 = time.time()
     with o.Lock():
         o.sync_snapshot()
-        for b in ("chk",):
+        for b in ("chk", "rel"):
             path, secs = o.cargo_build(b)
             o.log("built %s in %.1fs" % (b, secs))
     o.log("setup done in %.1fs" % (time.time() - t0))
@@ -115,3 +115,234 @@ def c03_plan(pid, tier, seed, t0):
 
 
 PLANS["C03"] = c03_plan
+
+
+def c04_plan(pid, tier, seed, t0):
+    enum_len = "4" if tier == "quick" else "5"
+    return generic(
+        "c04",
+        rule="(A) ALL sequences of 1..%s operator symbols from an 18-symbol alphabet (| || && == < >= . ! [0] [*] [] [?x] .* [1:] [::-1] "
+        ".f(@) .[y] .{k:y}) around identifier operands are enumerated (exhaustive for that sub-space); (B) random ABNF sentences with "
+        "nesting through filters, multi-selects and call arguments; (C) value-guided random trees printed fully parenthesised and with "
+        "parentheses minimised (minimisation validated by the reference parser). Oracle (1): the public Ast lifted to pipeline normal "
+        "form must equal the reference Pratt tree (binding powers from the statement; the crate's star<filter or the statement's "
+        "star=filter tie-break are both accepted and counted); oracle (2): the twin spellings give identical search results on 4 "
+        "documents. Non-trivial = expression with operators of >=2 different binding powers (or a twin that really lost parentheses); "
+        "distinct by expression text." % enum_len,
+        n_quick=60_000,
+        n_thorough=4_000_000,
+        min_evaluations=100_000,
+        extra_args=["--enum-len", enum_len],
+        assumptions=["regrouping of pure composition ('.', postfix brackets, '|') is invisible in the normal form by design: composition is associative, so it does not affect what the statement constrains"],
+    )(pid, tier, seed, t0)
+
+
+PLANS["C04"] = c04_plan
+
+
+# ---------------------------------------------------------------------------
+# C05: totality — process monitor with crash isolation
+
+import resource
+import signal
+from concurrent.futures import ThreadPoolExecutor
+
+DEPTH_FAMILIES = ["parens", "nots", "dots", "pipes", "ors", "ands", "cmps", "multilists", "multihashes", "flattens", "indexes",
+                  "wildcards", "objwildcards", "slices", "filters", "nested_filters", "calls", "exprefs", "json_literal"]
+
+
+def _limits(cpu_s, as_gib=8):
+    def f():
+        resource.setrlimit(resource.RLIMIT_CPU, (cpu_s, cpu_s + 10))
+        resource.setrlimit(resource.RLIMIT_AS, (as_gib << 30, as_gib << 30))
+    return f
+
+
+def _death_cause(returncode, stderr):
+    if "has overflowed its stack" in stderr:
+        return "stack-overflow"
+    if returncode < 0:
+        sig = -returncode
+        if sig == signal.SIGXCPU:
+            return "cpu-budget"
+        if sig == signal.SIGKILL:
+            return "killed"
+        return "signal-%d" % sig
+    if "memory allocation" in stderr and "failed" in stderr:
+        return "allocation-failure"
+    return "exit-%d" % returncode
+
+
+def _c05_worker(binary, build, n, seed, tier, shard, shards, rundir):
+    """Run one shard; on death name the culprit from the BEGIN/END log, record
+    it, and re-run the shard without it. Returns (report, death_violations, inconclusive)."""
+    skip = []
+    deaths = []
+    inconclusive = []
+    for attempt in range(40):
+        out = os.path.join(rundir, "c05.%s.%d.json" % (build, shard))
+        logf = os.path.join(rundir, "c05.%s.%d.log" % (build, shard))
+        for p in (out, logf):
+            if os.path.exists(p):
+                os.remove(p)
+        cmd = [binary, "c05", "--seed", str(seed), "--n", str(n), "--shard", "%d/%d" % (shard, shards), "--tier", tier,
+               "--out", out, "--log", logf, "--build", build]
+        if skip:
+            cmd += ["--skip", ",".join(str(x) for x in skip)]
+        try:
+            r = subprocess.run(cmd, capture_output=True, text=True, env=o.ENV, preexec_fn=_limits(600), timeout=1800)
+        except subprocess.TimeoutExpired:
+            inconclusive.append("shard %d (%s): wall-clock watchdog fired" % (shard, build))
+            return None, deaths, inconclusive
+        if r.returncode == 0 and os.path.exists(out):
+            with open(out) as f:
+                return json.load(f), deaths, inconclusive
+        # find the culprit: last B without E
+        culprit = None
+        if os.path.exists(logf):
+            last_b = None
+            for line in open(logf):
+                parts = line.split()
+                if len(parts) == 2:
+                    if parts[0] == "B":
+                        last_b = int(parts[1])
+                    elif parts[0] == "E" and last_b == int(parts[1]):
+                        last_b = None
+            culprit = last_b
+        cause = _death_cause(r.returncode, r.stderr)
+        if culprit is None:
+            return {"died": "%s (no culprit in log)" % cause, "shard": shard, "stderr": r.stderr[-1500:]}, deaths, inconclusive
+        d = subprocess.run([binary, "c05case", "--seed", str(seed), "--shard", "%d/%d" % (shard, shards), "--index", str(culprit)],
+                           capture_output=True, text=True, env=o.ENV)
+        try:
+            info = json.loads(d.stdout.splitlines()[0])
+        except Exception:
+            info = {"expression": "<could not regenerate case %d>" % culprit, "depth_metric": 0, "bytes": 0}
+        if cause in ("cpu-budget", "killed", "allocation-failure"):
+            # re-run alone under the large budget before deciding
+            d2 = subprocess.run([binary, "c05case", "--seed", str(seed), "--shard", "%d/%d" % (shard, shards), "--index", str(culprit), "--run", "1"],
+                                capture_output=True, text=True, env=o.ENV, preexec_fn=_limits(120))
+            if "RETURNED" in d2.stdout:
+                inconclusive.append("case %d of shard %d exhausted the shard budget (%s) but returned when run alone" % (culprit, shard, cause))
+                skip.append(culprit)
+                continue
+            cause = _death_cause(d2.returncode, d2.stderr) + "-alone"
+        if cause.startswith("stack-overflow"):
+            sig = "C05/stack-overflow/depth>=500" if info.get("depth_metric", 0) >= 500 else "C05/stack-overflow/depth<500"
+        else:
+            sig = "C05/process-died/%s" % cause
+        deaths.append({"signature": sig, "witness": {"expression": info.get("expression", "")[:2000], "bytes": info.get("bytes"),
+                                                     "depth_metric": info.get("depth_metric"), "build": build, "cause": cause,
+                                                     "seed": seed, "shard": shard, "index": culprit}})
+        skip.append(culprit)
+    return {"died": "too many restarts", "shard": shard}, deaths, inconclusive
+
+
+def _depth_case(binary, build, fam, depth):
+    try:
+        r = subprocess.run([binary, "c05depth", "--family", fam, "--depth", str(depth)], capture_output=True, text=True, env=o.ENV,
+                           preexec_fn=_limits(120), timeout=600)
+    except subprocess.TimeoutExpired:
+        return fam, depth, "watchdog", {}
+    info = {}
+    lines = r.stdout.splitlines()
+    if lines:
+        try:
+            info = json.loads(lines[0])
+        except Exception:
+            info = {}
+    if r.returncode == 0 and "DROPPED" in r.stdout:
+        if "panic" in info or str(info.get("search", "")).startswith("panic") or info.get("clone_drop") is False:
+            return fam, depth, "panic", info
+        return fam, depth, "returned", info
+    return fam, depth, _death_cause(r.returncode, r.stderr), info
+
+
+def c05_plan(pid, tier, seed, t0):
+    builds = ["chk", "rel"]
+    rundir, staged = o.prepare(builds)
+    n = 320_000 if tier == "quick" else 24_000_000
+    per = (n + o.NCPU - 1) // o.NCPU
+    merged = None
+    death_violations = []
+    for b in builds:
+        os.makedirs(os.path.join(rundir, b), exist_ok=True)
+        with ThreadPoolExecutor(max_workers=o.NCPU) as ex:
+            futs = [ex.submit(_c05_worker, staged[b], b, per, seed, tier, s, o.NCPU, os.path.join(rundir, b)) for s in range(o.NCPU)]
+            results = [f.result() for f in futs]
+        reports = []
+        inconc = []
+        for rep, deaths, inc in results:
+            if rep is not None:
+                reports.append(rep)
+            death_violations += deaths
+            inconc += inc
+        m = o.merge(reports)
+        m["inconclusive"] += inconc
+        if merged is None:
+            merged = m
+        else:
+            merged["evaluations"] += m["evaluations"]
+            merged["distinct"].update(m["distinct"])
+            merged["violations"] += m["violations"]
+            merged["violations_total"] += m["violations_total"]
+            merged["harness_errors"] += m["harness_errors"]
+            merged["inconclusive"] += m["inconclusive"]
+            merged["died"] += m["died"]
+            for k, v in m["observed"].items():
+                merged["observed"]["%s@%s" % (k, b)] = v
+    # depth families: one process per (family, depth, build)
+    depths = [10, 100, 400, 1000, 3000, 10000, 30000, 100000] if tier == "quick" else [10, 100, 400, 499, 700, 1000, 2000, 3000, 5000, 10000, 20000, 30000, 50000, 100000, 300000]
+    thresholds = {}
+    with ThreadPoolExecutor(max_workers=o.NCPU) as ex:
+        futs = []
+        for b in builds:
+            for fam in DEPTH_FAMILIES:
+                for d in depths:
+                    futs.append((b, ex.submit(_depth_case, staged[b], b, fam, d)))
+        for b, f in futs:
+            fam, d, outcome, info = f.result()
+            merged["evaluations"] += 1
+            key = "%s@%s" % (fam, b)
+            t = thresholds.setdefault(key, {"max_returned": 0, "min_died": None, "max_parse_depth": 0, "max_interp_depth": 0})
+            if outcome == "returned":
+                t["max_returned"] = max(t["max_returned"], d)
+                t["max_parse_depth"] = max(t["max_parse_depth"], info.get("parse_max_depth", 0))
+                t["max_interp_depth"] = max(t["max_interp_depth"], info.get("interp_max_depth", 0) or 0)
+                merged["distinct"].add(hash((fam, d, b)) & 0xFFFFFFFFFFFF)
+            elif outcome == "watchdog":
+                merged["inconclusive"].append("depth family %s depth %d (%s): wall-clock watchdog" % (fam, d, b))
+            else:
+                t["min_died"] = d if t["min_died"] is None else min(t["min_died"], d)
+                if outcome == "stack-overflow":
+                    sig = "C05/stack-overflow/depth>=500" if d >= 500 else "C05/stack-overflow/depth<500"
+                elif outcome == "panic":
+                    sig = "C05/panic/depth-family"
+                else:
+                    sig = "C05/process-died/%s" % outcome
+                death_violations.append({"signature": sig, "witness": {"family": fam, "depth": d, "build": b, "cause": outcome,
+                                                                       "how": "driver c05depth --family %s --depth %d" % (fam, d)}})
+    merged["violations"] += death_violations
+    merged["violations_total"] += len(death_violations)
+    cfg = {
+        "rule": "every hostile input is compiled and, if it compiles, searched against a hostile document pool (arrays of length 0..10, "
+        "deep/odd documents, numeric extremes), under two builds: 'chk' (optimised, overflow checks + debug assertions on) and 'rel' "
+        "(wrapping arithmetic, as shipped). Families: ABNF sentences, one-token mutants, token soup, character soup (incl. Unicode "
+        "numerics, NUL, astral), all truncations of sampled sentences, numeric-edge templates, malformed quoted forms, shallow depth "
+        "families; PLUS the exhaustive grid of slices with start/stop/step in {omitted,0,+-1,+-2,+-(2^31-1),+-(2^31-2),2^30} x array "
+        "lengths {0,1,2,3,10} (and the index forms); PLUS 19 depth families x depths %s, one process each. The monitor is the process: "
+        "a caught panic, a death (signal / stack overflow / allocation failure) or exhaustion of a CPU budget of 600 CPU-s per shard "
+        "(re-run alone with 120 CPU-s) is the event. Non-trivial = the input compiled and was searched; distinct by expression text."
+        % depths,
+        "min_evaluations": 200_000,
+        "assumptions": COMMON_ASSUMPTIONS + [
+            "bounded time is decided as 'within a CPU budget 4-6 orders of magnitude above the median'; wall clock never decides",
+            "main-thread stack of 8 MiB (ulimit -s default), i.e. what a CLI user gets",
+        ],
+        "exhaustive": False,
+    }
+    extra_cov = {"builds": builds, "depth_thresholds": thresholds, "depths_probed": depths}
+    return o.conclude(pid, tier, seed, merged, cfg, t0, extra_cov)
+
+
+PLANS["C05"] = c05_plan
